@@ -140,9 +140,32 @@ pub fn run(run: &mut Run) -> Finish {
             }
         });
     }
+    // a second name pool with multi-byte names (a unit slip between bytes and characters only shows
+    // there), up to 4 components
+    const WIDE: [&str; 3] = ["a", "ü", "プロ"];
+    let maxw: u32 = 4;
+    let nw = n_paths(maxw);
+    for (fi, &(abs, sb, st)) in forms.iter().enumerate() {
+        let name = format!("every ordered pair of {} paths with 1..={maxw} components over {{a, ü, プロ}}, base separator {sb:?}, target separator {st:?}", if abs { "absolute" } else { "relative" });
+        run.par_slice(&name, fi as u64 + 11, nw * nw, |idx, l| {
+            let k = idx & ((1 << 40) - 1);
+            let wide = |p: Vec<&'static str>| -> Vec<&'static str> { p.iter().map(|c| WIDE[NAMES.iter().position(|n| n == c).unwrap()]).collect() };
+            let b = wide(path_components(k / nw, maxw));
+            let t = wide(path_components(k % nw, maxw));
+            let (bs, ts) = (render(&b, abs, sb), render(&t, abs, st));
+            let (v, class) = check_pair(&bs, &ts);
+            if let Some(mut v) = v {
+                if !bs.is_ascii() || !ts.is_ascii() {
+                    v.sig = format!("{}/multi-byte-names", v.sig);
+                }
+                l.violation(idx, v);
+            }
+            l.case(class != 0, class + 100);
+        });
+    }
     Finish {
         level: "exploration",
-        rule: "E1: every ordered pair of paths with 1..N components (N=6 quick, 8 thorough) over the name pool {a,b,c}, in six forms (absolute/relative x separator combinations); distinct by construction. Oracle: component-wise resolution of the result against dir(base) equals the target, and '.' iff target = dir(base). Non-trivial = needs at least one '..' or one descended component; outcome class = (ups, downs) capped at 3.".into(),
+        rule: "E1: every ordered pair of paths with 1..N components (N=6 quick, 8 thorough) over the name pool {a,b,c} (and with 1..4 components over {a, ü, プロ}), in six forms (absolute/relative x separator combinations); distinct by construction. Oracle: component-wise resolution of the result against dir(base) equals the target, and '.' iff target = dir(base). Non-trivial = needs at least one '..' or one descended component; outcome class = (ups, downs) capped at 3.".into(),
         assumptions: vec!["paths made of ordinary components only (no '.', '..', empty components, drive letters) as the property states".into()],
         coverage_extra: json!({"max_components": maxc, "paths_per_form": n}),
     }
@@ -150,5 +173,15 @@ pub fn run(run: &mut Run) -> Finish {
 
 pub fn recheck(case: &Value) -> Vec<Viol> {
     let (Some(b), Some(t)) = (case["base"].as_str(), case["target"].as_str()) else { return vec![] };
-    check_pair(b, t).0.into_iter().collect()
+    let wide = !b.is_ascii() || !t.is_ascii();
+    check_pair(b, t)
+        .0
+        .map(|mut v| {
+            if wide {
+                v.sig = format!("{}/multi-byte-names", v.sig);
+            }
+            v
+        })
+        .into_iter()
+        .collect()
 }
